@@ -3,6 +3,7 @@ import SkopsModel.Card.Ops
 import SkopsModel.Markup.Parser
 import SkopsModel.Io.GetTree
 import SkopsModel.Io.Trace
+import SkopsModel.Io.Visualize
 import SkopsModel.Generated.Specs
 /-!
 Line-protocol driver: one JSON object per input line, one JSON object per output line.
@@ -256,6 +257,40 @@ def errStr : LErr → String
   | .keyError => "KeyError" | .typeError => "TypeError" | .valueError => "ValueError"
   | .attrError => "AttributeError" | .recursion => "RecursionError" | .importError => "ImportError"
 
+def rowJson (r : Row) : Json :=
+  Json.mkObj [("level", natJ r.level), ("key", r.key), ("val", r.val), ("self_safe", r.selfSafe), ("safe", r.safe)]
+
+mutual
+partial def nodeCyclic : Node → Bool
+  | .backref _ => true
+  | .mk _ _ _ _ _ kids _ => kidsCyclic kids
+partial def kidsCyclic : Kids → Bool
+  | .nil => false
+  | .node _ _ _ n rest => nodeCyclic n || kidsCyclic rest
+  | .raw _ _ rest => kidsCyclic rest
+  | .absent _ rest => kidsCyclic rest
+  | .blob _ _ rest => kidsCyclic rest
+  | .synth _ _ _ _ _ rest => kidsCyclic rest
+end
+
+def ioVisualize (j : Json) : Json :=
+  let tbl := Skops.Generated.table
+  let schema := decJ ((j.getObjVal? "schema").toOption.getD Json.null)
+  let members := jStrs j "members"
+  let fuel := ((j.getObjValAs? Nat "fuel").toOption.getD 400)
+  let T := jStrs j "trusted"
+  match getTreeRoot tbl schema members fuel with
+  | .error e => Json.mkObj [("r", "err"), ("e", errStr e)]
+  | .ok root =>
+    match root.walk tbl T "root" 0 with
+    | .error .audit => Json.mkObj [("r", "err"), ("e", "audit"), ("cyclic", nodeCyclic root)]
+    | .error .recursion => Json.mkObj [("r", "err"), ("e", "RecursionError"), ("cyclic", true)]
+    | .ok rows =>
+      Json.mkObj [("r", "rows"), ("cyclic", nodeCyclic root), ("walk", Json.arr (rows.map rowJson).toArray),
+        ("all", Json.arr ((traverse .all rows).map rowJson).toArray),
+        ("untrusted", Json.arr ((traverse .untrusted rows).map rowJson).toArray),
+        ("trusted", Json.arr ((traverse .trusted rows).map rowJson).toArray)]
+
 def ioLoad (j : Json) : Json :=
   let tbl := Skops.Generated.table
   let schema := decJ ((j.getObjVal? "schema").toOption.getD Json.null)
@@ -291,6 +326,7 @@ def handle (st : DSt) (j : Json) : DSt × Json :=
       ({ st with card := r.1 }, outJson r.2)
     | none => (st, badOp)
   else if op = "io.load" then (st, ioLoad j)
+  else if op = "io.visualize" then (st, ioVisualize j)
   else if op = "md.conv" then
     let items := (jArr j "items").map decItem
     let r := mdConvAll items []
